@@ -850,7 +850,7 @@ class JsNorm:
                         xform = 'id'
                     elif x[0] == 'call' and x[1][0] == 'member' and x[1][1] == ('name', ps[0]) and not x[2]:
                         xform = {'toLowerCase': 'lower', 'toUpperCase': 'upper', 'trim': 'strip'}.get(x[1][2], x[1][2])
-                    if xform is not None and ps[0] not in repr(body[1][1]):
+                    if xform is not None and ('name', ps[0]) not in set(n_ for n_ in self.js.walk(body[1][1]) if isinstance(n_, tuple) and n_[:1] == ('name',)):
                         other = self.term(body[1][1], env)
                         # the identity image of a set is the set
                         mine = recv if xform == 'id' and isinstance(recv, tuple) and recv[:1] in (('set',), ('frozenset',)) else ('map', 'set', xform, recv)
